@@ -55,7 +55,30 @@ func (u *c19vUpstream) Exchange(req *dns.Msg) (*dns.Msg, error) {
 	return resp, nil
 }
 
+// c19QTypes: the question types every generated request is drawn from
+// (round 6): the three the blocking host is an answer to, the other common
+// ones, ANY and a private-use number.
+var c19QTypes = []uint16{dns.TypeA, dns.TypeAAAA, dns.TypeHTTPS, dns.TypeTXT, dns.TypeMX, dns.TypeCNAME,
+	dns.TypeSRV, dns.TypeSVCB, dns.TypeNS, dns.TypePTR, dns.TypeANY, 65280}
+
+func c19QTypeName(qt uint16) string {
+	if n, ok := dns.TypeToString[qt]; ok {
+		return n
+	}
+	return fmt.Sprintf("TYPE%d", qt)
+}
+
+// c19QTNext hands out the types in turn to the constructed (seed-independent)
+// requests that do not name one.
+var c19QTCount int
+
+func c19QTNext() uint16 {
+	c19QTCount++
+	return c19QTypes[c19QTCount%len(c19QTypes)]
+}
+
 type c19vCase struct {
+	QType     uint16   `json:"qtype"`
 	Host      string   `json:"host"`
 	Filtering bool     `json:"filtering_enabled"`
 	Parental  bool     `json:"parental"`
@@ -108,14 +131,17 @@ func c19vRun(t *testing.T, out *vfOut, c c19vCase) {
 		t.Fatal(err)
 	}
 	defer d.Close()
-	res, cerr := d.CheckHost(c.Host, dns.TypeA, &Settings{
+	if c.QType == 0 {
+		c.QType = c19QTNext()
+	}
+	res, cerr := d.CheckHost(c.Host, c.QType, &Settings{
 		FilteringEnabled: c.Filtering, ProtectionEnabled: true,
 		SafeBrowsingEnabled: !c.Parental, ParentalEnabled: c.Parental,
 	})
 	blocked := cerr == nil && ((c.Parental && res.Reason == FilteredParental) || (!c.Parental && res.Reason == FilteredSafeBrowsing))
 
 	low := strings.ToLower(c.Host)
-	classes := []string{"via-checkhost"}
+	classes := []string{"via-checkhost", "via-qtype-" + c19QTypeName(c.QType)}
 	if c.Filtering {
 		classes = append(classes, "via-filtering-on")
 	} else {
@@ -160,11 +186,13 @@ func c19vRun(t *testing.T, out *vfOut, c c19vCase) {
 	wantQ.WriteString(suffix)
 	switch {
 	case cerr != nil:
-		bad("C19/checkhost-error", fmt.Sprintf("CheckHost(%q): %v", c.Host, cerr))
+		bad("C19/checkhost-error", fmt.Sprintf("CheckHost(%q, %s): %v", c.Host, c19QTypeName(c.QType), cerr))
+	case want && !blocked:
+		bad("C19/listed-name-not-blocked", fmt.Sprintf("CheckHost(%q, %s, filtering=%v): not blocked although the service lists one of the names %v enumerated for the host; questions sent: %d (%q)", c.Host, c19QTypeName(c.QType), c.Filtering, enum, ups.asked, ups.lastQ))
 	case len(enum) > 0 && (ups.asked != 1 || ups.lastQ != wantQ.String()):
-		bad("C19/caller-question", fmt.Sprintf("CheckHost(%q, filtering=%v): question %q asked %d times, want %q once (prefixes of the lower-case names %v)", c.Host, c.Filtering, ups.lastQ, ups.asked, wantQ.String(), enum))
+		bad("C19/caller-question", fmt.Sprintf("CheckHost(%q, "+c19QTypeName(c.QType)+", filtering=%v): question %q asked %d times, want %q once (prefixes of the lower-case names %v)", c.Host, c.Filtering, ups.lastQ, ups.asked, wantQ.String(), enum))
 	case blocked != want:
-		bad("C19/caller-verdict", fmt.Sprintf("CheckHost(%q, filtering=%v): blocked %v, but the service holds a hash of %v: %v", c.Host, c.Filtering, blocked, enum, want))
+		bad("C19/caller-verdict", fmt.Sprintf("CheckHost(%q, "+c19QTypeName(c.QType)+", filtering=%v): blocked %v, but the service holds a hash of %v: %v", c.Host, c.Filtering, blocked, enum, want))
 	}
 
 	// Tables for the model: sha256 and public suffix of the lower-case names.
@@ -243,7 +271,7 @@ func TestVerifC19(t *testing.T) {
 		if rr.Chance(4, 5) {
 			host = c19vSpell(rr, low)
 		}
-		c19vRun(t, out, c19vCase{Host: host, Filtering: rr.Chance(1, 2), Parental: rr.Chance(1, 2), DB: db})
+		c19vRun(t, out, c19vCase{QType: vfPick(rr, c19QTypes), Host: host, Filtering: rr.Chance(1, 2), Parental: rr.Chance(1, 2), DB: db})
 	}
 
 	c19gAll(t, out)
@@ -310,6 +338,9 @@ func (c *c19gChecker) Check(host string) (block bool, err error) {
 }
 
 type c19gReq struct {
+	// QType is the type of the question handed to CheckHost; 0 = the next one
+	// of c19QTypes in turn.
+	QType      uint16 `json:"qtype"`
 	Host       string `json:"host"`
 	Protection bool   `json:"protection_enabled"`
 	Filtering  bool   `json:"filtering_enabled"`
@@ -371,6 +402,19 @@ func c19gWellFormed(h string) bool {
 		}
 	}
 	return true
+}
+
+func c19gUniq(ss []string) (res []string) {
+	res = append(res, ss...)
+	sort.Strings(res)
+	n := 0
+	for i, x := range res {
+		if i == 0 || x != res[n-1] {
+			res[n] = x
+			n++
+		}
+	}
+	return res[:n]
 }
 
 func c19gHex(n string) string  { h := sha256.Sum256([]byte(n)); return hex.EncodeToString(h[:]) }
@@ -454,7 +498,11 @@ func c19gRun(t *testing.T, out *vfOut, c c19gCase) {
 		}
 		upSB.fail, upPC.fail = rq.FailSB, rq.FailPC
 		nSB, nPC, qSB, qPC, fSB, fPC := len(chkSB.calls), len(chkPC.calls), len(upSB.qs), len(upPC.qs), upSB.failed, upPC.failed
-		res, cerr := d.CheckHost(rq.Host, dns.TypeA, setts)
+		if rq.QType == 0 {
+			rq.QType = c19QTNext()
+		}
+		qtName := c19QTypeName(rq.QType)
+		res, cerr := d.CheckHost(rq.Host, rq.QType, setts)
 		callsSB, callsPC := chkSB.calls[nSB:], chkPC.calls[nPC:]
 		asksSB, asksPC := upSB.qs[qSB:], upPC.qs[qPC:]
 		upFailed := upSB.failed > fSB || upPC.failed > fPC
@@ -556,9 +604,14 @@ func c19gRun(t *testing.T, out *vfOut, c c19gCase) {
 		if reason == 1 && pcOn {
 			classes["glue-safebrowsing-blocks-parental-not-asked"] = true
 		}
+		classes["glue-qtype-"+qtName] = true
 		if reason == 1 || reason == 2 {
 			classes["via-blocked"] = true
+			classes["glue-qtype-"+qtName+"-blocked"] = true
 			nontrivial = true
+		}
+		if len(callsSB)+len(callsPC) > 0 && rq.QType != dns.TypeA && rq.QType != dns.TypeAAAA && rq.QType != dns.TypeHTTPS {
+			classes["glue-checker-called-for-non-address-qtype"] = true
 		}
 		if cerr != nil {
 			classes["glue-upstream-error"] = true
@@ -571,7 +624,7 @@ func c19gRun(t *testing.T, out *vfOut, c c19gCase) {
 		}
 
 		// ---- monitor
-		who := fmt.Sprintf("request %d: CheckHost(%q) with protection %v, safe browsing %v, parental %v, filtering %v", ri+1, rq.Host, rq.Protection, rq.SB, rq.PC, rq.Filtering)
+		who := fmt.Sprintf("request %d: CheckHost(%q, "+qtName+") with protection %v, safe browsing %v, parental %v, filtering %v", ri+1, rq.Host, rq.Protection, rq.SB, rq.PC, rq.Filtering)
 		type svcT struct {
 			name   string
 			on     bool
@@ -661,8 +714,19 @@ func c19gRun(t *testing.T, out *vfOut, c c19gCase) {
 				if !fromCache && len(unknown) > 0 {
 					wantQ = strings.Join(unknown, ".") + "." + sv.suffix
 				}
-				if got != wantQ {
+				// The labels as a set: two enumerated names with the same prefix
+				// (round 6) give the label twice in the code's question, which is
+				// the model's business, not the property's.
+				sameLabels := got == wantQ
+				if !sameLabels && got != "" && wantQ != "" && strings.HasSuffix(got, "."+sv.suffix) {
+					gl := c19gUniq(strings.Split(strings.TrimSuffix(got, "."+sv.suffix), "."))
+					sameLabels = strings.Join(gl, ".") == strings.Join(c19gUniq(unknown), ".")
+				}
+				if !sameLabels {
 					bad("C19/caller-question", fmt.Sprintf("%s: %s question %q, want %q (prefixes of the enumerated names %v without a cache entry)", who, sv.name, got, wantQ, enum))
+				}
+				if len(c19gUniq(unknown)) < len(unknown) && got != "" {
+					classes["glue-collision-in-chain"] = true
 				}
 				if got != "" && !sv.fail {
 					for _, p := range unknown {
@@ -704,7 +768,7 @@ func c19gRun(t *testing.T, out *vfOut, c c19gCase) {
 			return vfOpt("list N * option (list N)", true, vfPair(c19gB(calls[0]), q))
 		}
 		greqs = append(greqs, vfApp("GReq", vfBool(rq.Protection), vfBool(rq.Filtering), vfBool(rq.SB), vfBool(rq.PC),
-			vfBool(rq.FailSB), vfBool(rq.FailPC), c19gB(rq.Host), seen(callsSB, asksSB), seen(callsPC, asksPC),
+			vfZ(int64(rq.QType)), vfBool(rq.FailSB), vfBool(rq.FailPC), c19gB(rq.Host), seen(callsSB, asksSB), seen(callsPC, asksPC),
 			vfZ(int64(reason)), vfBool(cerr != nil)))
 	}
 
@@ -858,6 +922,61 @@ func c19gAll(t *testing.T, out *vfOut) {
 		c19gRun(t, out, c19gCase{Note: "parental fails behind a blocking safe browsing", DBSB: db, DBPC: db, ListedSB: []string{host}, ListedPC: []string{host}, Reqs: []c19gReq{failPC, failPC}})
 	}
 
+	// ---- Prelude 4 (round 6): the type of the question.  A listed ordinary
+	// name, a name whose parent is listed, a listed private suffix: every type
+	// on a fresh DNSFilter (a fresh lookup each), safe browsing and parental;
+	// then the types one after the other through ONE DNSFilter (the first is a
+	// lookup, the others are answered from the cache), starting with an
+	// address type and starting with TXT.
+	for hi, hl := range [][2]string{{"www.evil.example.org", "www.evil.example.org"}, {"cdn.shop.example.net", "example.net"}, {"github.io", "github.io"}} {
+		host, listed := hl[0], hl[1]
+		db := []string{hx(listed)}
+		for qi, qt := range c19QTypes {
+			rq := c19gReq{QType: qt, Host: host, Protection: true, Filtering: qi%2 == 0, SB: true}
+			c19gRun(t, out, c19gCase{Note: "every question type, fresh lookup", DBSB: db, ListedSB: []string{listed}, Reqs: []c19gReq{rq}})
+			rq.SB, rq.PC = false, true
+			c19gRun(t, out, c19gCase{Note: "every question type, fresh lookup, parental", DBPC: db, ListedPC: []string{listed}, Reqs: []c19gReq{rq}})
+			if hi == 0 {
+				// not listed: never blocked, whatever the type
+				rq.SB = true
+				c19gRun(t, out, c19gCase{Note: "every question type, nothing listed", DBSB: []string{hx("other.example")}, ListedSB: []string{"other.example"}, Reqs: []c19gReq{rq}})
+			}
+		}
+		for start := 0; start < len(c19QTypes); start += 3 {
+			var reqs []c19gReq
+			for k := range c19QTypes {
+				qt := c19QTypes[(start+k)%len(c19QTypes)]
+				reqs = append(reqs, c19gReq{QType: qt, Host: host, Protection: true, Filtering: true, SB: hi != 1, PC: hi != 0})
+			}
+			c19gRun(t, out, c19gCase{Note: "the question types in turn through one DNSFilter", DBSB: db, DBPC: db, ListedSB: []string{listed}, ListedPC: []string{listed}, Reqs: reqs})
+		}
+	}
+
+	// ---- Prelude 5 (round 6): a name whose hash shares its 2-byte prefix with
+	// the hash of its own parent (checked here), the parent listed / the name
+	// listed / neither; asked twice, different types.
+	for _, pair := range [][2]string{{"h86390.example.org", "example.org"}, {"h74882.github.io", "github.io"}, {"h34316.sub.example.org", "example.org"}} {
+		host, parent := pair[0], pair[1]
+		if c19gPref(host) != c19gPref(parent) {
+			t.Fatalf("C19 glue harness: %q and %q were expected to share the hash prefix", host, parent)
+		}
+		for _, listed := range []string{parent, host, "zz." + host} {
+			for _, svcPC := range []bool{false, true} {
+				c := c19gCase{Note: "prefix collision inside the chain"}
+				rq := c19gReq{Host: host, Protection: true, Filtering: true, SB: !svcPC, PC: svcPC}
+				if svcPC {
+					c.DBPC, c.ListedPC = []string{hx(listed)}, []string{listed}
+				} else {
+					c.DBSB, c.ListedSB = []string{hx(listed)}, []string{listed}
+				}
+				par := rq
+				par.Host = parent
+				c.Reqs = []c19gReq{rq, rq, par, rq}
+				c19gRun(t, out, c)
+			}
+		}
+	}
+
 	// ---- Random histories.
 	r := vfNewRand(out.Seed ^ 0x19c5)
 	labels := []string{"www", "mail", "evil", "good", "shop", "a", "b", "cdn", "x1"}
@@ -908,7 +1027,7 @@ func c19gAll(t *testing.T, out *vfOut) {
 			if rr.Chance(2, 3) {
 				host = c19vSpell(rr, host)
 			}
-			rq := c19gReq{Host: host, Protection: !rr.Chance(1, 6), Filtering: rr.Bool(), SB: rr.Chance(2, 3), PC: rr.Chance(1, 2)}
+			rq := c19gReq{QType: vfPick(rr, c19QTypes), Host: host, Protection: !rr.Chance(1, 6), Filtering: rr.Bool(), SB: rr.Chance(2, 3), PC: rr.Chance(1, 2)}
 			if rr.Chance(1, 4) {
 				rq.FromConf = true
 			}
